@@ -46,7 +46,17 @@ def run(chk):
     fresh, derived = [], []
     for _ in range(n):
         d = evalgen.gen_doc(chk.rng)
+        if chk.rng.random() < 0.15 and isinstance(d, dict):
+            # keys that look like glob patterns must be deleted literally, never as patterns
+            d = dict(list(d.items()) + [(chk.rng.choice(["*", "a*", "?", "*b", "??"]), chk.rng.choice(evalgen.INTS[:4]))])
+            items = list(d.items()); chk.rng.shuffle(items); d = dict(items)
         g.set_doc(d)
+        globk = [k for k in d if any(c in k for c in "*?")] if isinstance(d, dict) else []
+        if globk and chk.rng.random() < 0.6:
+            # select the pattern-keyed entry by its value: only that entry may disappear
+            d[globk[0]] = "uniq"
+            fresh.append((("pipe", ("index", ("self",), None), ("select", ("eq", ("self",), lit("uniq")))), d))
+            continue
         fresh.append((selection(g, d), d))
     for _ in range(n // 2):
         d = evalgen.gen_doc(chk.rng)
